@@ -112,6 +112,16 @@ WList ==
   /\ hist' = Append(hist, Step("list", "-", None))
   /\ UNCHANGED <<objs, log, cache, initSeen, view, viewSeen, nwrites, nfaults, nbooks>>
 
+\* the LIST is answered in PAGES and only the first page arrives (the request for the next one fails): the objects of that page have been
+\* observed -- their entries are brought up to date at once -- and the watcher starts over
+WListPart ==
+  /\ CanStep /\ nfaults < MaxFaults /\ wpc = "InitPage"
+  /\ Cardinality({n \in Names : Exists(objs[n])}) >= 2
+  /\ LET f == FirstIn(objs) IN q' = Append(q, [e |-> "InitApply", n |-> f, o |-> objs[f]])
+  /\ wpc' = "Empty"
+  /\ nfaults' = nfaults + 1 /\ hist' = Append(hist, Step("listpart", "-", None))
+  /\ UNCHANGED <<objs, log, conn, sent, wire, crv, cache, initSeen, view, viewSeen, nwrites, nbooks>>
+
 \* the LIST is answered with a server error (HTTP 500): the watcher starts over (Init again) after its back-off; nothing was observed
 WListFail ==
   /\ CanStep /\ nfaults < MaxFaults /\ wpc = "InitPage"
@@ -220,7 +230,7 @@ HDelete ==
 Next ==
   \/ \E n \in Names, sh \in Shapes : ApiCreate(n, sh) \/ ApiModify(n, sh) \/ ApiChurn(n, sh)
   \/ \E n \in Names : ApiDelete(n)
-  \/ WInit \/ WList \/ WListFail \/ WSend \/ WRecv \/ Bookmark \/ WExpire
+  \/ WInit \/ WList \/ WListFail \/ WListPart \/ WSend \/ WRecv \/ Bookmark \/ WExpire
   \/ \E how \in {"reset", "eof"} : WDrop(how)
   \/ HInit \/ HInitApply \/ HInitDone \/ HApply \/ HDelete
 Spec == Init /\ [][Next]_vars
